@@ -103,6 +103,7 @@ type Translator struct {
 	rangeOfNext map[*ssa.BasicBlock]*ssa.Range
 	parent  *Translator
 	callOrd map[*ssa.Call]int
+	bodyLocals bool // ghost assertions inside a loop body may name the body's own locals
 	curCall int
 	rets    []retEdge
 	notesUp []string
@@ -966,7 +967,7 @@ func (t *Translator) invEnv(st *State, li *loopInfo) *Env {
 	for _, b := range t.fn.Blocks {
 		for _, in := range b.Instrs {
 			if a, ok := in.(*ssa.Alloc); ok && !a.Heap && a.Comment != "" {
-				if li != nil && li.blocks[b] && b != li.header {
+				if li != nil && li.blocks[b] && b != li.header && !t.bodyLocals {
 					continue
 				}
 				byName[a.Comment] = append(byName[a.Comment], cand{a, a.Pos()})
@@ -990,7 +991,7 @@ func (t *Translator) invEnv(st *State, li *loopInfo) *Env {
 				continue
 			}
 			if best == nil || c.pos > best.Pos() {
-				if hpos == 0 || !c.pos.IsValid() || c.pos <= hpos {
+				if hpos == 0 || !c.pos.IsValid() || c.pos <= hpos || t.bodyLocals {
 					best = c.a
 				}
 			}
